@@ -96,10 +96,34 @@ package location
 //@   loop 0: invariant [fill] forall k int :: 0 <= k && k <= $idx ==> data[k] == elemaddr(locations, k)
 //@   loop 0: invariant [memo] forall i int :: 0 <= i && i < len(locations) ==> memoOK(elemaddr(locations, i))
 
-// rewrite rules are compiled by the regexp library; their semantics are assumed (DESIGN.md §6 C15)
+// A rule "key:value" is compiled from its key with EVERY "*" turned into the capture group (\S*)
+// (docs: /rest/*/user/*:/$1/$2); what the regexp then matches is the regexp library's business (assumed).
 //@ func generateURLRewriter(arr []string) (r Rewriter)
-//@   trusted
 //@   nopanic
+//@   modifies nothing
+//@   loop 0: modifies nothing
+//@   loop 0: invariant [idx] -1 <= $idx && $idx < len(arr)
+//@   loop 0: invariant [rules] forall i int :: 0 <= i && i < len(rewrites) ==> rewrites[i] != nil && rewrites[i].Regexp != nil
+//@   precall regexp.Compile#0 [every-wildcard] exists j int :: 0 <= j && j < len(arr) && splitCount(arr[j], ":") == 2
+//@                      && $arg0 == replaceAll(splitPart(arr[j], ":", 0), "*", "(\\S*)")
+
+//@ func captureTokens(pattern *regexp.Regexp, input string) (r *strings.Replacer)
+//@   requires [pattern] pattern != nil
+//@   nopanic
+//@   modifies nothing
+//@   loop 0: modifies replace[*]
+//@   loop 0: invariant [idx] -1 <= $idx && $idx < len(values) && len(replace) == 2 * len(values) && fresh(replace)
+
+// the rewriter itself: only the path of the request it is given is assigned
+//@ func generateURLRewriter$1(req *http.Request)
+//@   requires [req] req != nil && req.URL != nil
+//@   requires [captured-cell] rewrites != nil
+//@   requires [captured-rules] forall i int :: 0 <= i && i < len(deref(rewrites)) ==> deref(rewrites)[i] != nil
+//@   requires [captured-regexps] forall i int :: 0 <= i && i < len(deref(rewrites)) && deref(rewrites)[i] != nil ==> deref(rewrites)[i].Regexp != nil
+//@   nopanic
+//@   modifies req.URL.Path
+//@   loop 0: modifies nothing
+//@   loop 0: invariant [idx] -1 <= $idx && $idx < len(rewrites)
 
 // ---- request/response decoration (C15) ----------------------------------------------------
 
